@@ -106,8 +106,8 @@ Definition entry (sel : Z) (toks : list Z) : list Z :=
   | 102 => match run_dec (let* j := dJob in let* m1 := dJob in let* m2 := dJob in ret (j, m1, m2)) toks with
            | Some (j, m1, m2) => eBool (law_mutate j m1 m2)
            | None => bad_input end
-  | 103 => match run_dec (let* m1 := dJob in let* v0 := dBool in let* v1 := dBool in ret (m1, v0, v1)) toks with
-           | Some (m1, v0, v1) => eBool (law_default_valid m1 v0 v1)
+  | 103 => match run_dec (let* j := dJob in let* v0 := dBool in let* v1 := dBool in ret (j, v0, v1)) toks with
+           | Some (j, v0, v1) => eBool (law_default_valid j v0 v1)
            | None => bad_input end
   | 104 => match run_dec (let* o := dJob in let* n := dJob in let* a := dBool in ret (o, n, a)) toks with
            | Some (o, n, a) => eBool (law_update o n a)
